@@ -204,6 +204,7 @@ htp_tx_t *htp_connp_tx_create(htp_connp_t *connp) {
     }
     if (connp->cfg->max_tx > 0 &&
         htp_list_size(connp->conn->transactions) > connp->cfg->max_tx) {
+        HTP_VERIF_PROBE("tx.max_tx", connp, htp_list_size(connp->conn->transactions), connp->cfg->max_tx);
         return NULL;
     }
 
